@@ -33,7 +33,11 @@ CHECK = {
                   "hash functions uninterpreted), with the model compared line by line with the real loader, interpreter, compiler, "
                   "public-input encoder, mock checker and serialiser on generated programs on every run",
     "level_note": "Trusted: Lean kernel, the correspondence harness and driver; gadget internals below the ZKIR operation level "
-                  "(C04-C07) and the hash functions are specified, not verified; one recorded finding (N7) is excluded from the "
-                  "agreement theorem by an explicit hypothesis and its negation is proved",
+                  "(C04-C07) and the hash functions are specified, not verified. off_in_agree / off_fail_unsat are proved as "
+                  "`_partial`: hypothesis RunRegular excludes Jubjub scalars built by FromBytes from 0 or >= 32 bytes (recorded "
+                  "finding N7, negation proved: off_in_agree_fails_for_long_scalars); the in-circuit pass may reject with a static "
+                  "error (comparison typing gap, negation of full typing agreement proved; BigUint limb-bookkeeping panic); "
+                  "format_instance succeeding is a hypothesis of the public-input equality; binary/JSON round trips are checked on "
+                  "the real code and the byte encoder by correspondence (no decoder theorem)",
     "timeout": {"quick": 900, "thorough": 3000, "search": 1500},
 }
